@@ -216,6 +216,11 @@ def _apply_unit(repo: str, header: str, body_lines: List[str], tpl_name: str) ->
             elif d.startswith("spec:"):
                 cur = ("spec", "", [])
                 sections.append(cur)
+            elif d.startswith("loop-start") or d.startswith("loop-end"):
+                kind0 = "loop-start" if d.startswith("loop-start") else "loop-end"
+                k = d[len(kind0):].strip().rstrip(":").strip()
+                cur = (kind0, k, [])
+                sections.append(cur)
             elif d.startswith("after-loop"):
                 k = d[len("after-loop"):].strip().rstrip(":").strip()
                 cur = ("after-loop", k, [])
@@ -377,6 +382,24 @@ def _apply_unit(repo: str, header: str, body_lines: List[str], tpl_name: str) ->
             ci_l = rt.match_close(toks_l, bi_l)
             if ci_l + 1 < len(toks_l) and toks_l[ci_l + 1].text == "{":
                 inserts.append((toks_l[ci_l].end, ";"))
+        elif kind in ("loop-start", "loop-end"):
+            heads = rt.loop_headers(body)
+            k = int(arg)
+            if len(heads) < k:
+                raise ExtractError("%s: loop %d not found in %s (has %d loops)" % (uid, k, info.item, len(heads)))
+            toks_b = rt.tokenize(body)
+            bi = next(i for i, t in enumerate(toks_b) if t.start == heads[k - 1][0])
+            ci = rt.match_close(toks_b, bi)
+            if kind == "loop-end":
+                inserts.append((toks_b[ci].start, "\n" + txt + "\n"))
+            else:
+                off = toks_b[bi].end
+                # after the prologue generated by for2while (`let PAT = ..; __i_k += 1;`)
+                marker = "__i_%d += 1;" % k
+                pos = body.find(marker, off, toks_b[ci].start)
+                if pos >= 0 and body[off:pos].count(";") <= 1:
+                    off = pos + len(marker)
+                inserts.append((off, "\n" + txt + "\n"))
         elif kind == "after-loop":
             heads = rt.loop_headers(body)
             k = int(arg)
